@@ -53,6 +53,21 @@ func (v5API) Reset() {
 }
 
 func damage(raw []byte, k int) *[]byte {
+	switch k % 6 {
+	case 4:
+		// an invalid byte in the middle of the text (a scan error before the end)
+		b := append([]byte(nil), raw...)
+		if len(b) > 0 {
+			b[len(b)/2] = '}'
+		}
+		if len(b) > 2 {
+			b[len(b)/2-1] = ']'
+		}
+		return &b
+	case 5:
+		b := append(append([]byte(nil), raw...), " x"...)
+		return &b
+	}
 	switch k % 4 {
 	case 0:
 		return nil
@@ -71,6 +86,7 @@ func (v5API) CorruptPatch(p any, k int) any {
 	pp, _ := p.(v5.Patch)
 	out := make(v5.Patch, len(pp))
 	n := 0
+	doneValue := false
 	for i, op := range pp {
 		keys := make([]string, 0, len(op))
 		for key := range op {
@@ -81,7 +97,15 @@ func (v5API) CorruptPatch(p any, k int) any {
 		for _, key := range keys {
 			v := op[key]
 			n++
-			if n == 1+(k/4)%16 || (n == 1 && len(pp) == 1 && len(keys) == 1) {
+			hit := n == 1+(k/4)%16 || (n == 1 && len(pp) == 1 && len(keys) == 1)
+			if k%2 == 0 {
+				// every second hand-assembled Patch has its damage in an operation's value
+				hit = key == "value" && !doneValue && i == (k/12)%len(pp)
+				if hit {
+					doneValue = true
+				}
+			}
+			if hit {
 				var raw []byte
 				if v != nil {
 					raw = *v
